@@ -210,6 +210,7 @@ def run(tier, seed, argv):
     rep.assumptions = ["torch.distributed is the stand-in's lock-step simulator: it checks the SPMD contract (same collective sequences), not backend timing; by the standard SPMD argument equal sequences make the result independent of interleaving",
                        "per-process caches (get_device_mesh) are made per simulated rank by the harness", "single-member process groups created by one rank only are logged but not counted (nothing can be shown to fail on a real backend)",
                        "as C01: real arithmetic, recording stubs, generic equality regime"]
+    rep.validate_standin(6 if tier == "quick" else 24)
     rep.absorb("ddp", par.run_jobs(jobs, chunk=4))
     return rep.finish("checks.c06")
 
